@@ -84,6 +84,29 @@ def cutDef (wb sec item : Str) : Option Str :=
   | none => none
   | some i => some (rstrip (phase1 item (splitLines (dropLine (wb.drop i)))).flatten ++ ['\n'])
 
+/-! ## the verified cut (repo patch 31: `parser._get_member_definition`) -/
+
+/-- PyYAML as an oracle: `D` = parsed values up to python `==`; `parse` = `parser.parse_yaml` (`none` =
+    DSLParsingException), `dump` = `safe_yaml.dump(…, default_flow_style=False, sort_keys=False)`. -/
+structure Yaml (D : Type) where
+  parse : Str → Option D
+  dump : D → Str
+
+/-- `_get_member_definition` once the member `{name: section[name]}` of the parsed workbook is known:
+    the text cut is kept when it is YAML for exactly that member, else the member is written out. -/
+def cutVerified {D : Type} [DecidableEq D] (Y : Yaml D) (wb sec name : Str) (member : D) : Str :=
+  match cutDef wb (sec ++ [':']) (name ++ [':']) with
+  | some t => if Y.parse t = some member then t else Y.dump member
+  | none => Y.dump member
+
+/-- `_get_member_definition`; `member` = what the parsed workbook text holds under `sec` / `name`
+    (`none`: not a workbook with that member — nothing to verify against, the plain cut as before;
+    a `none` result is the ValueError of `wb_def.index`). -/
+def memberDefinition {D : Type} [DecidableEq D] (Y : Yaml D) (wb sec name : Str) (member : Option D) : Option Str :=
+  match member with
+  | some m => some (cutVerified Y wb sec name m)
+  | none => cutDef wb (sec ++ [':']) (name ++ [':'])
+
 /-! ## canonical rendering of a workbook section (what `cutDef_correct` is about) -/
 
 /-- a body line of a member: indentation relative to the member's name line, and its text. -/
